@@ -71,6 +71,10 @@ def configs(tier, seed):
                               ("uint32", "compressed_segmentation", (2, 2, 1))):
         out.append(dict(harness="identity", dtype=dtype, C=1, size=[2, 2, 1], cs=[2, 2, 1], encoding=enc, block=block,
                         big_endian=True, cost=2, wall=900))
+    # chunks handed over in Fortran memory order (what axis-permuting callers such as the slice converter produce)
+    for dtype, enc, block in (("uint16", "raw", None), ("uint32", "compressed_segmentation", (2, 2, 1)), ("float32", "raw", None)):
+        out.append(dict(harness="identity", dtype=dtype, C=2 if enc == "raw" else 1, size=[3, 2, 2], cs=[2, 2, 2], encoding=enc, block=block,
+                        order="F", cost=3, wall=900))
     for dt_chunk, dt_data in (("uint16", "uint8"), ("int64", "uint64"), ("float32", "uint32"), ("uint64", "uint32"), ("float64", "float32")):
         out.append(dict(harness="unsafe", dt_chunk=dt_chunk, dt_data=dt_data, cost=1))
     for k in ((1, 2, 3) if tier == "quick" else (1, 2, 3, 4)):
@@ -229,6 +233,8 @@ def H_identity(ctx, cfg):
         written[cc] = chunk
         if cfg.get("big_endian"):
             arg = SArray(chunk.a, real_np.dtype(dtype).newbyteorder(">"))       # same values, big-endian memory layout
+        elif cfg.get("order") == "F":
+            arg = SArray(real_np.asfortranarray(chunk.a), dtype)                # same values, Fortran-ordered memory (e.g. a transposed view)
         else:
             arg = chunk
         io.write_chunk(arg, "k0", cc)
@@ -542,7 +548,8 @@ def replay(cfg, cex):
                 chunk = real_np.array(raw, dtype=real_np.uint64).astype(dtype).reshape(shape)
             written[cc] = chunk
             try:
-                io.write_chunk(chunk.astype(chunk.dtype.newbyteorder(">")) if cfg.get("big_endian") else chunk, "k0", cc)
+                io.write_chunk(chunk.astype(chunk.dtype.newbyteorder(">")) if cfg.get("big_endian") else
+                               (real_np.asfortranarray(chunk) if cfg.get("order") == "F" else chunk), "k0", cc)
             except Exception as e:
                 return True, f"write_chunk raised {type(e).__name__}: {e}"
         io2 = pio.PrecomputedIO(info, acc)
